@@ -1,6 +1,6 @@
 SPECIFICATION TraceSpec
 CONSTANTS MaxRecs = 99 MaxCalls = 9999 MaxRuns = 9999 CommitBeforeReturn = TRUE TolerantVersionRead = TRUE
-          AtomicUpgrade = TRUE Legacy = FALSE Strict = FALSE
+          AtomicUpgrade = TRUE Legacy = FALSE MaxBatches = 9999 GateResetOnError = TRUE ReloadWait = 0 Strict = FALSE
 INVARIANT TraceAccepted
 INVARIANT AckedDurable
 INVARIANT NoPartialRecord
@@ -9,4 +9,8 @@ INVARIANT PseudonymVerifies
 INVARIANT ObsMatchesDurable
 INVARIANT ObsAckedPresent
 INVARIANT ObsNoPartial
+INVARIANT RebuiltHasAcked
+INVARIANT RebuiltVerifies
+INVARIANT ObsRebuiltMatches
+INVARIANT ObsRebuiltWhole
 INVARIANT ObsVerifies
